@@ -182,10 +182,18 @@ thread_local! {
     pub static CHILD_ENV: std::cell::RefCell<Vec<(String, String)>> = const { std::cell::RefCell::new(Vec::new()) };
 }
 
+/// Environment given to every child this process spawns (the per-thread CHILD_ENV is applied on top).
+pub static GLOBAL_CHILD_ENV: Mutex<Vec<(String, String)>> = Mutex::new(Vec::new());
+
+pub fn set_global_child_env(v: Vec<(String, String)>) {
+    *GLOBAL_CHILD_ENV.lock().unwrap_or_else(|e| e.into_inner()) = v;
+}
+
 fn spawn_limited(args: &[&str], vmem_kb: u64) -> std::io::Result<Child> {
     let exe = self_exe();
     let script = format!("ulimit -v {}; exec \"$0\" \"$@\"", vmem_kb);
-    let mut extra: Vec<(String, String)> = CHILD_ENV.with(|e| e.borrow().clone());
+    let mut extra: Vec<(String, String)> = GLOBAL_CHILD_ENV.lock().unwrap_or_else(|e| e.into_inner()).clone();
+    extra.extend(CHILD_ENV.with(|e| e.borrow().clone()));
     if let Some(shim) = clock_shim() {
         extra.push(("LD_PRELOAD".into(), shim));
     }
